@@ -11,8 +11,8 @@ from props import c01
 ID = 'C10'
 HANG_CLAUSE = 'total'     # the property promises termination: a case that does not return is a failing input
 CASE_TIMEOUT = 10
-LEAN_MODULES = ['PybtexModel.Props.C10']
-DRV = ['C01', 'C10']     # the bibparse op of the C01 driver module, c10case of its own
+LEAN_MODULES = ['PybtexModel.Props.C10', 'PybtexModel.Props.C10b']
+DRV = ['C01', 'C10']     # the bibparse op of the C01 driver module, c10case and c10render of its own
 THEOREMS = {
     'C10_total': 'total: for every text, mode, wanted-set, macro table the reader model never runs out of fuel or takes an impossible branch (no error of kind internal reported or raised); when nothing is raised the whole text was read (no "@" left)',
     'C10_total_wellnested': 'total: ONLY with well nested initial macro values (VOK; the month names are) the BibTeXError of Person() (nesting > 100) is never reported or raised, so continue mode raises nothing at all: values read are balanced and at most 100 deep, every name piece is a segment of such a value',
@@ -44,13 +44,23 @@ THEOREMS = {
     'C10_confined_after_wanted_neg': 'confined_after: with wanted_entries the partial entry left by a malformed command still pulls in its crossref target (kernel-evaluated witness, same in pybtex) - the wanted-set hypothesis of C10_confined_after_partial cannot be dropped',
     'C10_confined_lone_at_neg': 'confined_after also fails for a malformed command that is a lone "@": "@" is in NAME_CHARS, the next command is read as an entry of type "@misc" and nothing is reported (kernel-evaluated witness) - NEW finding, the restricted C10_confined_partial of DESIGN.md is false as stated',
     'C10_confined_next_at_neg': 'confined_after fails whenever the "@" of the NEXT command is read as an identifier character: "@misc" directly followed by "@misc{z,...}" gives an entry of type "misc@misc" and no report; "@a(k)" reads "@b" as a field name and loses the next entry (kernel-evaluated witnesses) - known finding C10-next-at-read-as-identifier (generalises the lone "@")',
+    'C10_context_refines': 'located/shown (refinement, every text / mode / wanted-set / macro table / person-field list): the reader model run round by round with command_start recorded and every round on an EMPTY report list (parseBibCS, Model/BibContext.lean) returns exactly the final state and raised error of parseBib; the located problems it records are, in order, the problems parseBib reports, at the positions len(text) - len(unread text) of the ghost errAt; the located raised error is the raised one at the position of the final state (rests on the frame property of a round: problems reported before do not influence it)',
+    'C10_context_wf': 'located/shown (all inputs): every syntax error the reader model reports or raises has command_start < pos <= len(text): before_error of LowLevelParser.get_error_context is never empty (no IndexError from splitlines()[-1]) and the error_context_info satisfies CtxInfo.WF, the hypothesis of the C16 rendering theorems',
+    'C10_context_renderable': 'total/shown (composition with C16_render_total, all inputs, any file name and prefix): every problem the reader model reports and the error it raises is an exception object of one of the eight bib reader classes built with the (command_start, lineno, pos) the reader really has; it satisfies Err.WF, so the model of errors.format_error is defined on it and yields context lines + prefix + str(error) - printing a warning in non-strict mode cannot raise in the model',
+    'C10_context_renderable_nonvacuous': "kernel-evaluated: '=' missing in line 2 of an entry starting in line 1 gives command_start 0, pos 20 and the four printed lines (command from its @, offending line, marker under column 8, located WARNING); a second command has its own command_start (20) after a data error; strict mode raises the undefined macro y of 'x @a{k, t = y z}' with command_start 2, pos 13",
+    'C10_model_constants_match_source': '[table comparison] the literals of the reader model equal the constants regenerated from /repo on every run (harness/tablegen/c10.py -> Gen/BibReaderConsts.lean): max_level = 100 and level = 0 of parse_string, descriptions of the 4 patterns and 9 literals, their regular expressions and those of WHITESPACE / NEWLINE, the PrematureEOF and "... expected" messages, the error_type strings, BaseParser.filename',
     'C10_confined_neg': 'confined_after fails with an "@" inside the malformed entry: witness evaluated in the kernel (bogus entry shadows a later real one) - known finding C10-at-inside-malformed-entry',
 }
 RULE = ('every string up to the tier length over the token alphabet {@ a b 0 1 { } ( ) " , = # ~ space LF CR}; person fields holding every string of <= 3 name '
         'pieces; every single token-level corruption (delete, duplicate, replace by each token kind, truncate) of one entry of hand-written and of generated '
         'well-formed documents (split context / corrupted command / rest); the same with wanted_entries; seeded random Unicode text; each in capture, strict '
-        'and non-strict mode; non-trivial = text containing "@"; distinct by case JSON')
+        'and non-strict mode; repeated-key corruptions (key token := a key of the prefix in another case spelling, alone and with a further '
+        'corruption); the problems as they are shown (op c10render: error_context_info, str, get_context, format_error, stderr text of '
+        'non-strict mode) on multi-line texts with every line break of str.splitlines; LowLevelParser used directly (op c10lowlevel: yielded '
+        'commands, collecting / raising handle_error, fixed want_entry); non-trivial = text containing "@"; distinct by case JSON')
 TRUSTED = ['stderr text of non-strict mode is observed through pybtex.io.stderr redirection',
+           'rendering model = Model/Errors.lean of C16 (str.splitlines line-break table, repr() of non-ASCII characters in InvalidNameString messages approximated as stated there); '
+           'the literals WARNING: / ERROR: of errors.py and the offset in command_start = pos - 1 are compared by the c10render cases only',
            'the entry-point scan of importlib.metadata behind pybtex.plugin.find_plugin is memoised per process (c01.fast_plugin_lookup)']
 ASSUMPTIONS = ['entry keys are folded with str.lower() character by character (Model/UniCase.lean): no U+0130 and no U+03A3 in the generated texts',
                'with wanted_entries the wanted-set is the ASCII-folding CaseInsensitiveSet model: wanted keys and crossref values are ASCII in the generated cases, and the '
@@ -123,7 +133,103 @@ def text_of(case):
     return case['pre'] + case['bad'] + case['post']
 
 
+def _render_err(e, prefix):
+    """one problem as the exception object shows itself: canonical (class, line, message), error_context_info (command_start, pos),
+    str(e), e.get_context(), errors.format_error(e, prefix); a non-pybtex exception while rendering is recorded as render_raised"""
+    from pybtex.errors import format_error
+    from pybtex.scanner import PybtexSyntaxError
+    d = {'err': c01.canon_error(e), 'start': None, 'pos': None}
+    if isinstance(e, PybtexSyntaxError):
+        info = getattr(e, 'error_context_info', None)
+        if info is not None and len(info) == 3:
+            d['start'], d['pos'] = info[0], info[2]
+    try:
+        d['str'] = str(e)
+        d['context'] = e.get_context()
+        d['format'] = format_error(e, prefix)
+    except Exception as x:  # noqa
+        d['render_raised'] = 'INTERNAL:' + type(x).__name__
+    return d
+
+
+def _impl_render(case):
+    import pybtex.io
+    from pybtex import errors
+    from pybtex.database import parse_string
+    text, wanted = case['text'], case.get('wanted')
+    old_strict, old_code, old_err = errors.strict, errors.error_code, pybtex.io.stderr
+    c01.fast_plugin_lookup()
+    out = {}
+    try:
+        captured, raised = [], None
+        try:
+            with errors.capture() as captured:
+                parse_string(text, 'bibtex', wanted_entries=wanted)
+        except Exception as e:  # noqa
+            raised = e
+        out['capture'] = {'located': [_render_err(e, 'WARNING: ') for e in captured],
+                          'raised': None if raised is None else _render_err(raised, 'ERROR: ')}
+        errors.set_strict_mode(False)
+        buf = _io.StringIO()
+        pybtex.io.stderr = buf
+        try:
+            parse_string(text, 'bibtex', wanted_entries=wanted)
+            out['nonstrict_raised'] = None
+        except Exception as e:  # noqa
+            out['nonstrict_raised'] = c01.canon_error(e)
+        out['capture']['stderr'] = buf.getvalue()
+        pybtex.io.stderr = old_err
+        errors.set_strict_mode(True)
+        try:
+            parse_string(text, 'bibtex', wanted_entries=wanted)
+            out['strict'] = {'raised': None}
+        except Exception as e:  # noqa
+            out['strict'] = {'raised': _render_err(e, 'ERROR: ')}
+        return out
+    finally:
+        errors.strict, errors.error_code, pybtex.io.stderr = old_strict, old_code, old_err
+
+
+def _low_cmd(c):
+    command, args = c
+    cl = command.lower()
+    if cl == 'string':
+        return {'kind': 'string', 'name': args[0], 'value': list(args[1])}
+    if cl == 'preamble':
+        return {'kind': 'preamble', 'value': list(args[0])}
+    return {'kind': 'entry', 'command': command, 'key': args[0], 'fields': [[n, list(v)] for n, v in args[1]]}
+
+
+def _impl_lowlevel(case):
+    """LowLevelParser used directly, as Parser.parse_string sets it up (month macros in a CaseInsensitiveDict) but with a handle_error that
+    collects (or the default one, which raises) and a fixed want_entry: what the iterator yields, before Parser processes it"""
+    from pybtex.database.input.bibtex import LowLevelParser, month_names
+    from pybtex.utils import CaseInsensitiveDict, CaseInsensitiveSet
+    text, wanted = case['text'], case.get('wanted')
+    errs = []
+    kw = {'macros': CaseInsensitiveDict(month_names)}
+    if not case['strict']:
+        kw['handle_error'] = errs.append
+    if wanted is not None:
+        ws = CaseInsensitiveSet(wanted)
+        kw['want_entry'] = lambda key: key in ws or '*' in ws
+    p = LowLevelParser(text, **kw)
+    cmds, raised = [], None
+    try:
+        for c in p:
+            cmds.append(_low_cmd(c))
+    except Exception as e:  # noqa
+        raised = _err(e)[0]
+    located = [_err(e) for e in errs]
+    return {'low': True, 'commands': cmds, 'errors': [e for e, _p in located], 'errpos': [q for _e, q in located], 'raised': raised,
+            'pos': p.pos, 'lineno': p.lineno}
+
+
 def impl(case):
+    if case.get('op') == 'c10render':
+        return _impl_render(case)
+    if case.get('op') == 'c10lowlevel':
+        return _impl_lowlevel(case)
     text = text_of(case)
     wanted = case.get('wanted')
     out = {m: _run_mode(text, m, wanted) for m in ('capture', 'strict', 'nonstrict')}
@@ -134,6 +240,12 @@ def impl(case):
 
 
 def to_request(case):
+    if case.get('op') == 'c10render':
+        # the file name the error objects of parse_string carry: the class attribute BaseParser.filename, read from the source on every run
+        from pybtex.database.input import BaseParser
+        return {'op': 'c10render', 'text': case['text'], 'wanted': case.get('wanted'), 'filename': BaseParser.filename}
+    if case.get('op') == 'c10lowlevel':
+        return {'op': 'c10lowlevel', 'text': case['text'], 'strict': case['strict'], 'wanted': case.get('wanted')}
     if 'pre' in case:
         return {'op': 'c10case', 'pre': case['pre'], 'bad': case['bad'], 'post': case['post'], 'wanted': case.get('wanted')}
     return {'op': 'bibparse', 'text': text_of(case), 'strict': False, 'wanted': case.get('wanted'), 'both': True}
@@ -147,6 +259,10 @@ def _strict_view(m):
 
 def compare_view(io):
     """What is compared with the model: capture result and strict result, with the positions of the located errors."""
+    if io.get('low'):                 # op c10lowlevel
+        return {k: v for k, v in io.items() if k != 'low'}
+    if 'nonstrict_raised' in io:      # op c10render
+        return {'capture': io['capture'], 'strict': io['strict']}
     return {'capture': io['capture'], 'strict': _strict_view(io['strict'])}
 
 
@@ -154,6 +270,12 @@ _COVER = {}     # id(case) -> cover part of the reply (set by model_out, read by
 
 
 def model_out(case, reply):
+    if case.get('op') == 'c10render':
+        if reply.get('agree') is not True:
+            raise AssertionError('C10_context_refines says parseBibCS = parseBib, the driver evaluates otherwise on %r' % (case,))
+        return reply['out']
+    if case.get('op') == 'c10lowlevel':
+        return reply['out']
     m = reply['out']
     if 'cover' in reply:
         _COVER[id(case)] = reply['cover']
@@ -220,7 +342,58 @@ def cover_of(reply):
     return (reply or {}).get('cover') or {}
 
 
+def _oracle_render(case, io, reply):
+    """Clauses of the property on the rendering of the problems: in non-strict mode every problem is printed from inside parse_string
+    (report_error -> print_error -> format_error -> get_context -> get_error_context), so a non-pybtex exception while rendering is an
+    internal exception of the reader; the located clause is the one of the reading cases."""
+    fails = []
+    text = case['text']
+    mloc = (((reply or {}).get('out') or {}).get('capture') or {}).get('located') or []
+    loc = io['capture']['located']
+    aligned = len(mloc) == len(loc) and all(m['err'][0] == e['err'][0] and m['err'][2] == e['err'][2] for m, e in zip(mloc, loc))
+    for i, d in enumerate(loc):
+        if 'render_raised' in d:
+            fails.append('total: showing the reported problem %r of %r raised %s' % (d['err'], text[:200], d['render_raised']))
+        if d['err'][0].startswith('INTERNAL'):
+            fails.append('total: reported a non-pybtex error %r' % (d['err'],))
+        if d['err'][0] in SYNTAX_CLASSES:
+            _located(fails, text, 'reported', d['err'], mloc[i]['pos'] if aligned else None, d['pos'])
+    for what, d in (('capture', io['capture']['raised']), ('strict', io['strict']['raised'])):
+        if d is None:
+            continue
+        if d['err'][0].startswith('INTERNAL'):
+            fails.append('total: reading %r in %s mode raised %s' % (text[:200], what, d['err'][0]))
+        elif 'render_raised' in d:
+            fails.append('total: showing the raised error %r of %r raised %s' % (d['err'], text[:200], d['render_raised']))
+    nr = io.get('nonstrict_raised')
+    if nr is not None and nr[0].startswith('INTERNAL'):
+        fails.append('total: reading %r in nonstrict mode raised %s' % (text[:200], nr[0]))
+    return fails
+
+
+def _oracle_lowlevel(case, io, reply):
+    fails = []
+    text = case['text']
+    m = (reply or {}).get('out') or {}
+    if io['raised'] is not None and io['raised'][0].startswith('INTERNAL'):
+        fails.append('total: iterating LowLevelParser over %r raised %s' % (text[:200], io['raised'][0]))
+    aligned = (m.get('errors') is not None and len(m['errors']) == len(io['errors'])
+               and all(a[0] == e[0] and a[2] == e[2] for a, e in zip(m['errors'], io['errors'])))
+    for i, e in enumerate(io['errors']):
+        if e[0].startswith('INTERNAL'):
+            fails.append('total: handle_error got a non-pybtex error %r' % (e,))
+        if e[0] in SYNTAX_CLASSES:
+            _located(fails, text, 'reported', e, m['errpos'][i] if aligned else None, io['errpos'][i])
+    if io['raised'] is not None and io['raised'][0] in SYNTAX_CLASSES:
+        _located(fails, text, 'raised', io['raised'], None, io['pos'])
+    return fails
+
+
 def oracle(case, io, reply):
+    if case.get('op') == 'c10render':
+        return _oracle_render(case, io, reply)
+    if case.get('op') == 'c10lowlevel':
+        return _oracle_lowlevel(case, io, reply)
     fails = []
     text = text_of(case)
     cap, strict, non = io['capture'], io['strict'], io['nonstrict']
@@ -267,6 +440,11 @@ def oracle(case, io, reply):
         clean_e = io['ctx']['clean']['entries'] or []
         got = cap['entries']
         balanced = case.get('kind') != 'string' and braces_and_quotes_balanced(case['bad'])
+        # "A malformed entry never alters the entries read before it" - in the mode where errors are captured AND in the mode where they are
+        # downgraded to warnings: key spelling, type, fields and persons of the entries of the prefix are exactly those read from the prefix alone
+        non_e = non.get('entries')
+        if non['raised'] is None and non_e is not None and non_e[:len(pre_e)] != pre_e:
+            fails.append('confined_before: (non-strict mode) a malformed entry altered the entries before it: pre=%r bad=%r' % (case['pre'][-80:], case['bad']))
         if got[:len(pre_e)] != pre_e:
             fails.append('confined_before: a malformed entry altered the entries before it: pre=%r bad=%r' % (case['pre'][-80:], case['bad']))
         elif balanced:
@@ -314,6 +492,24 @@ KNOWN_MATCHERS = {
 
 
 def buckets(case, io):
+    if case.get('op') == 'c10render':
+        loc = io['capture']['located']
+        b = ['fam:render'] + sorted({'render:' + d['err'][0] for d in loc}) or ['fam:render', 'render:clean']
+        for d in loc:
+            if d.get('context'):
+                ctx = d['context'].split('\n')
+                b.append('render:context-lines=%s' % (len(ctx) - 1 if len(ctx) < 5 else '4+'))
+                b.append('render:marker=%s' % ('^^' if ctx[-1] == '^^' else '^^^'))
+        if io['capture']['raised'] is not None or io['strict']['raised'] is not None:
+            b.append('render:raised')
+        if case.get('wanted') is not None:
+            b.append('wanted')
+        return b
+    if case.get('op') == 'c10lowlevel':
+        b = ['fam:lowlevel', 'lowlevel:' + ('strict' if case['strict'] else 'collect')] + sorted({'lowlevel:yield-' + c['kind'] for c in io['commands']})
+        if io['raised'] is not None:
+            b.append('lowlevel:raised')
+        return b
     cap = io['capture']
     b = []
     if cap.get('errors'):
@@ -338,6 +534,18 @@ def buckets(case, io):
     if case.get('fam'):
         b.append('fam:' + case['fam'])
     return b
+
+
+def valid_case(case):
+    """for the shrinker: a (context, corruption) triple stays one - the context in front is a sequence of complete commands (reading it alone
+    hits no premature end of the text) and the corrupted command still starts at its "@" """
+    if 'pre' in case:
+        if not case['bad'].startswith('@'):
+            return False
+        r = _capture(case['pre'], case.get('wanted'))
+        if r['errors'] is None or any(e[0] == 'PrematureEOF' for e in r['errors']):
+            return False
+    return True
 
 
 def nontrivial(case, io):
@@ -381,7 +589,10 @@ ALPHA = ['@', 'a', '1', '{', '}', '(', ')', '"', ',', '=', '#', ' ', '\n', 'b', 
 PTOK = ['~', '-', ',', ' ', 'a', 'A', '{}', '\\', 'and']
 NAME_EXTRA = ['a, b, c, d', ', , ,', ',,,', 'a,,,b', ',,,,', 'a, b, c, d and e, f, g, h', ' and ', ' and  and ', 'and', ' and and and ', 'a and ', ' and a',
               'and and and', 'a and  and b', '~ and ~', '- and -', '{ and }', ' AND ', 'a And b aNd ~', '~~', '~-~', '\\~', 'a~', '~a', '{~}', '{-}', '-{}-',
-              ',~', '~,', '~,~', '~,~,~', '-,-,-', ' , , ', 'a,b,c', 'A,a,A', 'a A', 'A a', 'a a A', 'a {}', '{} a', '\\ a', 'a\\', '{\\a}', '{\\a} a']
+              ',~', '~,', '~,~', '~,~,~', '-,-,-', ' , , ', 'a,b,c', 'A,a,A', 'a A', 'A a', 'a a A', 'a {}', '{} a', '\\ a', 'a\\', '{\\a}', '{\\a} a',
+              # special characters in von position (is_von_name / special_char_islower: built-in foreign letters, accents over a letter, no letter at all)
+              'A {\\i} B', 'A {\\OE} B', 'A {\\ss}x B', "A {\\'e}cole B", "A {\\'E}cole B", 'A {\\"} B', 'A {\\x1y} B', 'A {\\AAx} b', '{\\l}, {\\L}', 'A {x\\i} B',
+              '1 {\\o} 2']
 WANTED_TEXTS = [
     '@a{k1, t = undef} @a{k2, t = 1}', '@a{k1, crossref = {k3}} @a{k2} @a{k3, t = undef2}', '@a{K1, t = jan # undef}',
     '@a{k1, t = {x} @a{k2, t = 1}', '@a{k2, t = 1, t = 2} @a{k1, author = {a,b,c,d}}', '@string{m = undef} @a{k1, t = m} @a{k2, t = m}',
@@ -389,6 +600,39 @@ WANTED_TEXTS = [
     '@a(k2, crossref = "K1") @a{k1, t = u1, crossref = {k3}} @a{k3, t = u3}', '@a{k1, t = "x" u} @a{k2, t = {y} v w}', '@a{, t = u} @a{ } @a{k1, t = v}',
 ]
 WANTED_SETS = [[], ['k1'], ['k2'], ['K1', 'k3'], ['*'], ['k1', 'k2', 'k3'], ['unnamed-1'], ['K2', '*']]
+
+
+KEY_RE = re.compile(r'(@\s*[^\s{(@]+\s*[{(]\s*)([^\s,})]+)', re.S)
+PRE_KEY_RE = re.compile(r'@\s*(?!string|preamble|comment)[A-Za-z]+\s*[{(]\s*([^\s,})]+)', re.I)
+
+
+def other_case(k):
+    """the key in another case spelling (the same key for the reader: keys are case-insensitive)"""
+    for cand in (k.swapcase(), k.upper(), k.lower(), k.title()):
+        if cand != k and cand.lower() == k.lower():
+            return cand
+    return k
+
+
+def with_key(entry_text, key):
+    """the entry command with its key token replaced by `key`; None when the text has no key token"""
+    mo = KEY_RE.match(entry_text)
+    if not mo:
+        return None
+    return entry_text[:mo.start(2)] + key + entry_text[mo.end(2):]
+
+
+def dupkey_corruptions(pre, entry, every=1):
+    """replace the key token of `entry` by each key of the prefix `pre` in another case spelling; then every single-token corruption of that"""
+    for k in PRE_KEY_RE.findall(pre):
+        for kk in (other_case(k), k):
+            dup = with_key(entry, kk)
+            if dup is None:
+                continue
+            yield 'dupkey', dup
+            for i, (cop, bad) in enumerate(corruptions(dup)):
+                if i % every == 0:
+                    yield 'dupkey+' + cop, bad
 
 
 def _one_corruption(rng, toks):
@@ -464,6 +708,18 @@ def gen_cases(tier, rng, info):
         for cop, bad in cs:
             cases.append({'op': 'bibparse', 'pre': pre.rstrip('\r\n') + ' ', 'bad': bad, 'post': ' ' + post.lstrip('\r\n'), 'kind': kind, 'cop': cop + '/same-line'})
             ncorr += 1
+    # -- repeated key: the key token of the corrupted entry replaced by a key of the PREFIX in another case spelling (keys are compared
+    # case-insensitively: the command is reported as a repeated entry), alone and with every further single-token corruption
+    ndup = 0
+    for di, (pre, entry, post) in enumerate(BASE_DOCS):
+        for cop, bad in dupkey_corruptions(pre, entry, every=5 if quick else 1):
+            cases.append({'op': 'bibparse', 'pre': pre, 'bad': bad, 'post': post, 'kind': 'entry', 'cop': cop, 'fam': 'dupkey'})
+            ndup += 1
+    for di, wanted in ((0, ['first', 'last']), (0, ['*']), (1, ['A', 'c']), (3, ['P1', 'q2'])):
+        pre, entry, post = BASE_DOCS[di]
+        for cop, bad in dupkey_corruptions(pre, entry, every=11 if quick else 2):
+            cases.append({'op': 'bibparse', 'pre': pre, 'bad': bad, 'post': post, 'kind': 'entry', 'cop': cop + '/wanted', 'wanted': wanted, 'fam': 'dupkey'})
+            ndup += 1
     nwant = 0
     for di, wanted in WANTED_DOCS:
         pre, entry, post = BASE_DOCS[di]
@@ -486,8 +742,9 @@ def gen_cases(tier, rng, info):
                      'characters behind "@a{" / "@a{a," / "@a{a,a="; %d person fields holding every string of <= 3 pieces out of %r (+ %d hand-picked degenerate names), braced and quoted; '
                      '%d single-token corruptions (delete / duplicate / replace by each token kind / truncate) of one entry in %d base documents, parts on '
                      'separate lines and on one line; %d cases with wanted_entries (corruptions of wanted / unwanted / cross-referenced entries, undefined '
-                     'macros and data errors in unwanted entries)'
-                     % (nstr, ALPHA, full, full + 1, full + 1, nname, PTOK, len(NAME_EXTRA), ncorr, len(BASE_DOCS), nwant))
+                     'macros and data errors in unwanted entries); %d repeated-key corruptions (key token of the corrupted entry := a key of the prefix, same '
+                     'or other case spelling, alone and with every further single-token corruption, with and without wanted_entries)'
+                     % (nstr, ALPHA, full, full + 1, full + 1, nname, PTOK, len(NAME_EXTRA), ncorr, len(BASE_DOCS), nwant, ndup))
     # -- random
     pool = ALPHA * 3 + ['@misc', '@string', '@preamble', '@comment', 'key', 'title', ' = ', '{a}', '"b"', ' # ', 'jan', 'é', '–', '\r\n', '\r',
                         ' ', '\x0b', 'author', ' and ', ',,', '{{', '}}', '\\', '%', 'ß', '٣', '@@', '0012', '~', '-', ' AND ', 'editor = {~}', 'key', 'KEY',
@@ -514,12 +771,70 @@ def gen_cases(tier, rng, info):
         cop, toks2 = _one_corruption(rng, toks)
         cases.append({'op': 'bibparse', 'pre': pre + lead, 'bad': ''.join(toks2), 'post': post, 'kind': 'entry' if doc[i]['k'] == 'entry' else 'string',
                       'cop': cop + '/random'})
+    # ... and the key of one entry replaced by the key of an EARLIER entry of the same document in another case spelling, half of them with one
+    # more token-level corruption
+    for _ in range(300 if quick else 6000):
+        doc = bibgen.gen_doc(rng, rich=True, fold_unicode_keys=False)
+        idx = [i for i, c in enumerate(doc) if c['k'] == 'entry']
+        if len(idx) < 2:
+            continue
+        j, i = sorted(rng.sample(idx, 2))
+        L = bibgen.Layout([], rng)
+        pre, entry, post = (bibgen.render(part, L) for part in (doc[:i], doc[i:i + 1], doc[i + 1:]))
+        at = entry.find('@')
+        if at < 0:
+            continue
+        pre, entry = pre + entry[:at], entry[at:]
+        k = doc[j]['key']
+        if any(ord(ch) > 127 for ch in k):
+            continue
+        bad = with_key(entry, other_case(k) if rng.random() < 0.7 else k)
+        if bad is None:
+            continue
+        cop = 'dupkey/random'
+        if rng.random() < 0.5:
+            c2, toks2 = _one_corruption(rng, TOKEN_RE.findall(bad))
+            if toks2 and toks2[0] == '@':
+                bad, cop = ''.join(toks2), 'dupkey+' + c2 + '/random'
+        cases.append({'op': 'bibparse', 'pre': pre, 'bad': bad, 'post': post, 'kind': 'entry', 'cop': cop, 'fam': 'dupkey'})
     # documents that repeat keys and field names (not valid renderings: no confinement clause), corrupted anywhere
     for _ in range(400 if quick else 10000):
         doc = bibgen.gen_doc(rng, dups=True, rich=True, fold_unicode_keys=True)
         toks = TOKEN_RE.findall(bibgen.render(doc, bibgen.Layout([], rng)))
         if toks:
             cases.append({'op': 'bibparse', 'text': ''.join(_one_corruption(rng, toks)[1])})
+    # -- the problems as they are SHOWN (op c10render): command_start / pos of every error object, str(e), get_context(), format_error and the
+    # text non-strict mode prints; texts whose commands span several lines, with every kind of line break str.splitlines knows (the context
+    # code mixes splitlines() with the scanner's NEWLINE pattern), errors at the very start / end of a line, several commands per line
+    rcases = []
+    for n in range(0, 4):
+        for tup in itertools.product(['@', 'a', '{', '=', '\n', ' '], repeat=n):
+            rcases.append('@a{k,' + ''.join(tup))
+    LB = ['\n', '\r\n', '\r', '\x0b', '\x0c', '\x1c', '\x1d', '\x1e', '\x85', '\u2028', '\u2029']
+    for lb in LB:
+        for t in ('@a{k,%st x}', '@a{k, t%s x}', '@a{k, t = 1 x%s}', 'x%s@a{k,%s t = {a%sb},%s u%s}%s@b(j%s u = )', '@a{%s', '@%sa{k, t = 1}%s@{', '@a{k, t = "x%sy" z}%sq',
+                  '@string{s%s= }', '@preamble{%s,}', '@a(k, t = 1 %s', 'junk%s@a{k, t = x, t = 2}%s@a{K}%s@b{j, author = {a,b,c,d}, u}'):
+            rcases.append(t.replace('%s', lb))
+    for di, (pre, entry, post) in enumerate(BASE_DOCS):
+        cs = list(corruptions(entry))
+        for cop, bad in (cs[di::5] if quick else cs):
+            rcases.append(pre + bad + post)
+    rpool = pool + LB * 2 + ['\n'] * 6 + ['\n  ', ',\n', ' = ', '{', '}', '@a{k', '@b(j']
+    for i in range(1200 if quick else 40000):
+        rcases.append(''.join(rng.choice(rpool) for _ in range(rng.randint(1, 25))))
+    for i, t in enumerate(rcases):
+        c = {'op': 'c10render', 'text': t, 'fam': 'render'}
+        if i % 7 == 6:
+            c['wanted'] = rng.choice([['key'], ['k', 'a'], ['*'], [], ['K', 'j']])
+        cases.append(c)
+    # -- LowLevelParser used directly (op c10lowlevel): the commands the iterator yields (raw value parts), collecting and raising handle_error,
+    # default and fixed want_entry
+    for i, t in enumerate(rcases):
+        if i % 2 == 0:
+            c = {'op': 'c10lowlevel', 'text': t, 'strict': i % 4 == 0, 'fam': 'lowlevel'}
+            if i % 6 == 0:
+                c['wanted'] = rng.choice([['key'], ['k', 'a'], ['*'], [], ['K', 'j']])
+            cases.append(c)
     # witnesses of the recorded findings (replayed on every run)
     cases.append({'op': 'bibparse', 'pre': '@misc{p, t = 1}\n', 'bad': '@misc{k, t = x y @misc{z, u = 1} }', 'post': '\n@misc{z, v = 2}\n',
                   'kind': 'entry', 'cop': 'witness'})
@@ -532,6 +847,13 @@ def gen_cases(tier, rng, info):
     return cases
 
 
+LEVEL_TEXT_EXT = (' EXTENSION (Props/C10b.lean, Model/BibContext.lean): the reader with command_start (parseBibCS, every round on an empty report '
+                  'list) is proved to compute exactly parseBib and to record the reported problems in order at the positions of errAt '
+                  '(C10_context_refines); every syntax error reported or raised has command_start < pos <= len(text) with an "@" at command_start '
+                  '(C10_context_wf), hence - composed with C16_render_total - every problem of every run is an exception object on which the model of '
+                  'errors.format_error (get_context, LowLevelParser.get_error_context) is defined: printing a warning cannot raise in the model '
+                  '(C10_context_renderable); the literals of the reader model equal the constants regenerated from the source '
+                  '(C10_model_constants_match_source).')
 LEVEL_TEXT = ('Machine-checked proofs (Lean 4) about the function-by-function model of LowLevelParser / Parser (Model/BibParse.lean) for EVERY '
               'text, mode, wanted-set, initial macro table and person-field list (exceptions, named below: C10_confined_before_text - default '
               'setting only, its general counterpart is C10_confined_before_any; the positive confinement-after theorems - effectively continue '
@@ -563,9 +885,11 @@ LEVEL_TEXT = ('Machine-checked proofs (Lean 4) about the function-by-function mo
               '(C10_confined_syntactic, C10_selfContained_round, C10_confined_syntactic_at, _flat); the unnamed counter and the wanted-set are '
               'genuinely handed on (C10_confined_after_unnamed_neg, C10_confined_after_wanted_neg). The driver evaluates the hypotheses of '
               'C10_confined_after_partial for every generated (context, corruption) pair; the harness reports how many pairs the theorem covers '
-              '(histogram "theorem-covers:*") and checks its conclusion on the implementation.')
+              '(histogram "theorem-covers:*") and checks its conclusion on the implementation.' + LEVEL_TEXT_EXT)
 LEVEL_NOTE = ('Trusted: Lean kernel; axioms propext/Classical.choice/Quot.sound at most; the hand-written model corresponds to pybtex only as far'
-              ' as the differential check explores (every string of length <= 3/4 over a 17-symbol alphabet and longer ones behind "@" / an entry'
+              ' as the differential check explores (the ops bibparse / c10case end to end; c10render: error_context_info (command_start, pos), str(e), '
+              'get_context(), format_error and the stderr text of non-strict mode of every problem; c10lowlevel: the tuples LowLevelParser yields '
+              'before Parser processes them - lowLevelIter has NO theorem of its own, it reuses parseCommand / handleError; every string of length <= 3/4 over a 17-symbol alphabet and longer ones behind "@" / an entry'
               ' head, person fields over every <= 3 name pieces, single-token corruptions of base and random documents, wanted_entries cases, '
               'random Unicode; capture and strict mode incl. the positions of the errors). C10_confined_before_text (syntactic premise WFD) is '
               'NOT general in the wanted-set and the macro table (wanted = none, month macros, default roles only; generalising it would need the'
